@@ -1,7 +1,7 @@
 import PyYetiVerif.Lemmas.UsetTranAux
 /-!
 C18, `n2p._formtran_0` (the residual, `formtran(nas, 0, dof, gset)`; model `Uset.formtran0`): the three ways the
-routine answers - selection from the g-set (`gset=True`), rows of `nas['phg'][0]`, or recovery from
+routine answers - selection from the g-set (`gset=True`, the code since fix 061ccd9), rows of `nas['phg'][0]`, or recovery from
 `nas['pha'][0]` (a-set rows, m-set rows through GM, zero s-set rows).
 -/
 set_option linter.constructorNameAsVariable false
@@ -13,16 +13,15 @@ section formtran0
 variable {κ : Type} [LinearOrder κ] (mkKey : Nat → Nat → κ)
 variable {α : Type} [Add α] [Mul α] [OfNat α 0] [OfNat α 1] [DecidableEq α]
 
-/-- **`gset=True`**: when no DOF is requested twice, row `k` is the unit vector at the position of requested DOF `k`
-within the g-set, and the columns are the g-set DOF.  (For a DOF requested twice the later column assignment of
-`tran[:, pvdof] = np.eye(n)` wins and the first of the two rows stays zero: finding
-`formtran-se0-gset-repeated-dof`; `formtran0_gset_repeated` below is the smallest instance.) -/
+/-- **`gset=True`** (the code since fix 061ccd9, finding F68): row `k` is the unit vector at the position of requested
+DOF `k` within the g-set - for EVERY request, also when a DOF is requested more than once - and the columns are the
+g-set DOF. -/
 theorem formtran0_gset (mk : Masks) (tbl : List Row) (phg pha gm : Option (M α)) (req : Request)
     (out : M α) (dof : List (Nat × Nat)) (pvdof ng : List Nat)
     (h : formtran0 mkKey mk tbl phg pha gm req true = .ok (out, dof))
     (hpv : mkdofpv mk.p tbl (.mask mk.g) req true = .ok (pvdof, dof))
-    (hng : setPos tbl mk.p mk.g = .ok ng) (hnd : pvdof.Nodup) :
-    out.c = ng.length ∧ List.Forall₂ (fun c row => row = unitRow ng.length c) pvdof out.r := by
+    (hng : setPos tbl mk.p mk.g = .ok ng) :
+    out.c = ng.length ∧ out.r = pvdof.map (fun c => unitRow ng.length c) ∧ ∀ c ∈ pvdof, c < ng.length := by
   unfold formtran0 at h
   rw [hpv] at h
   obtain ⟨pd, hpd, h⟩ := bind_ok h
@@ -31,25 +30,29 @@ theorem formtran0_gset (mk : Masks) (tbl : List Row) (phg pha gm : Option (M α)
   rw [hng] at h
   obtain ⟨ng', hng', h⟩ := bind_ok h
   cases hng'
-  obtain ⟨rows, hrows, h⟩ := bind_ok h
-  simp only [Except.ok.injEq, Prod.mk.injEq] at h
-  obtain ⟨rfl, _⟩ := h
-  refine ⟨rfl, ?_⟩
-  have h2 := scatterRows_ok hrows
-  apply forall₂_of_getElem?
-  · rw [← h2.length_eq]; simp
-  · intro k c row hc hrow
-    obtain ⟨vals, hvals, hset⟩ := forall₂_getElem?' h2 k row hrow
-    have hk : k < pvdof.length := (List.getElem?_eq_some_iff.mp hc).1
-    rw [List.getElem?_map, List.getElem?_range hk] at hvals
-    simp only [Option.map_some, Option.some.injEq] at hvals
-    subst hvals
-    exact setCols_unit hset hnd hc
+  split at h
+  · cases h
+  · rename_i hr
+    simp only [Except.ok.injEq, Prod.mk.injEq] at h
+    obtain ⟨rfl, _⟩ := h
+    refine ⟨rfl, rfl, fun c hc => ?_⟩
+    by_contra hge
+    exact hr (List.any_eq_true.mpr ⟨c, hc, by simpa using hge⟩)
 
-/-- the smallest instance of finding `formtran-se0-gset-repeated-dof`: one scalar point requested twice - the
-first row is zero, not the unit vector (so `pvdof.Nodup` is necessary in `formtran0_gset`) -/
-theorem formtran0_gset_repeated :
-    scatterRows (α := Int) 1 [0, 0] [unitRow 2 0, unitRow 2 1] = .ok [[0], [1]] := by decide
+/-- the input of finding F68 on the repaired model: one scalar point requested twice gets its unit row twice (the
+code before the fix answered `[[0], [1]]`: `tran[:, [0, 0]] = np.eye(2)`, the later column assignment wins) -/
+example : formtran0 (α := Int) (fun i d => i * 10 + d) (Masks.ofTable Generated.UsetMask.mask) [(7, 0, 4194304)]
+      none none none (.rows [(7, 0), (7, 0)]) true = .ok (⟨[[1], [1]], 1⟩, [(7, 0), (7, 0)]) ∧
+    scatterRows (α := Int) 1 [0, 0] [unitRow 2 0, unitRow 2 1] = .ok [[0], [1]] := by
+  constructor
+  · simp [formtran0, mkdofpv, mksetpv, expanddof, expanddof2, expandRow, digits, digitsRev, mkdofpvKeys, argsort,
+      lookup, searchsortedLeft, key, List.mergeSort, List.zipIdx, List.MergeSort.Internal.splitInTwo,
+      Masks.ofTable, Generated.UsetMask.mask, Generated.UsetMask.v_p, Generated.UsetMask.v_g, Generated.UsetMask.v_n,
+      Generated.UsetMask.v_f, Generated.UsetMask.v_a, Generated.UsetMask.v_q, Generated.UsetMask.v_r,
+      Generated.UsetMask.v_b, Generated.UsetMask.v_c, Generated.UsetMask.v_o, Generated.UsetMask.v_s,
+      Generated.UsetMask.v_m, Generated.UsetMask.v_e, Generated.UsetMask.v_l, Generated.UsetMask.v_t,
+      inSet, liftE, setPos, positions, unitRow, bind, Except.bind, pure, Except.pure, Except.map]
+  · decide
 
 /-- **`nas['phg'][0]` available** (and `gset=False`): row `k` is the row of `phg` at the position of requested DOF
 `k` within the g-set -/
